@@ -24,3 +24,4 @@ def check(ctx):
         spanrules.rule_fanout(ctx, c, "R5")
     spanrules.rule_signals_forced(ctx, facts, "R6", kinds=("DropCollect",))
     spsc.rule_force_send_keeps(ctx, facts, "R6")
+    spsc.rule_replay_keeps(ctx, facts, "R6")
